@@ -311,7 +311,7 @@ class KBox:
     def get(self, cpu, expand):
         k = (cpu, expand)
         if k not in self.ctx:
-            self.ctx[k] = Ctx(self.lib, cpu=cpu, expand=expand, trusted=TRUSTED)
+            self.ctx[k] = Ctx(self.lib, cpu=cpu, expand=bool(expand), trusted=TRUSTED, values=(expand == 'values'))
         return self.ctx[k]
 
     def table(self, c, cpu, expand, ctor, args):
